@@ -135,13 +135,13 @@ def start_failure_scripts(rng, n):
 
 
 def stop_while_closing_scripts(rng, n):
-    """a stop condition reaching a step (with and without a cancel handler, waiting at each of its blocking points) in the
-    same instant in which the step is closed for another reason"""
+    """a stop condition reaching a step (waiting at each of its blocking points, or running) in the same instant in which
+    the step is closed for another reason"""
     out = []
     stages = [[], ['deploy'], ['deploy', 'enabling'], ['deploy', 'enabling', 'starting']]
     for k in range(n):
         pre = stages[k % len(stages)]
-        handler = (k // len(stages)) % 2 == 0
+        handler = True          # (the engine refuses stop_if on a step whose plugin has no cancel handler, at preparation)
         acts = [{'op': 'provide', 'stage': st, 'lane': 0, **({'val': True} if st == 'enabling' else {})} for st in pre]
         base = 15
         acts.append({'op': 'sleep', 'ms': base, 'lane': 1})
